@@ -482,7 +482,7 @@ def b_rise_set(rng, tier, k=0, n=1):
     N = (20000 if tier == "thorough" else 160) // n
     rng = random.Random(9176 + k)
     for i in range(N):
-        lat = rng.uniform(-66.0, 66.0)
+        lat = rng.uniform(-66.5, 66.5)           # the whole band the function accepts (66 deg 33 arcmin)
         lon = rng.uniform(-180.0, 180.0)
         hgt = rng.choice((0.0, 0.0, 500.0, 5000.0, rng.uniform(0, 5000)))
         jd = math.floor(J + rng.uniform(-100, 100) * 365.25) + 0.5
